@@ -86,6 +86,21 @@ check("C16",
       "sizes >= 2**53, more than 4 blocks per uniform axis.",
       "DESIGN.md 6 C16")
 
+check("C24",
+      "Solver-decided for chains of up to 3 pushed basic indices (unit-step slices of every None-pattern, integers) and a "
+      "pushed rechunk over 1-D/2-D sources with symbolic chunk sizes and unbounded bounds: symbolic nodes of the real "
+      "FromArray/SliceSlicesIntegers/TasksRechunk classes are driven through FromArray._accept_slice/_accept_rechunk/"
+      "_with_chunks, the real _layer graphs of the resulting tree are executed on symbolic arrays (elements = uninterpreted "
+      "function of the source position) and compared with NumPy indexing of the source for a skolem output index; every "
+      "store request is shown to be an in-bounds unit-step slice; blocks have the advertised shapes; key grid exact. "
+      "ndarray sources (eager-copy branch, both sides of the 64 MiB threshold), plain stores, inline_array, stores with a "
+      "storage grid (chunk size 2,3).",
+      "Trusted: z3, symx shims, symx.sarr (NumPy semantics of basic indexing/concatenation on symbolic arrays), the kernels "
+      "getitem/getter/concatenate3 interpreted by their NumPy meaning. Stubs: constructors/tokenize bypassed by symx.nodes, "
+      "plan_rechunk -> [target]. Outside: custom getitem, locks, zarr/h5py objects, non-unit steps inside the read.",
+      "DESIGN.md 6 C24",
+      technique="bounded symbolic execution of the repo's expression classes (symx nodes) + symbolic-array graph execution + z3 SMT (QF_UFLIA)")
+
 ALL = [f"C{i:02d}" for i in range(1, 30)]
 
 
